@@ -40,6 +40,8 @@ type KeySel struct {
 	Map []KeyEntry `json:"map,omitempty"`
 	Def int        `json:"def,omitempty"` // default key slot, 0 = none
 	UseMap bool    `json:"use_map,omitempty"`
+	DefEmpty bool  `json:"def_empty,omitempty"` // a default key is configured but empty: there is no usable default
+	Empty  []uint32 `json:"empty,omitempty"`    // ids registered with an empty key: no usable key under them
 	Raw string     `json:"raw,omitempty"` // hex of a literal 32-byte key (random / zero key)
 }
 
